@@ -13,18 +13,40 @@ def apply_routine(ctx):
     """The builder function that iterates ``.suboperations`` and reserves
     directories for build_file records (calls RESERVE inside the loop)."""
     R = ctx.R
+    prog = ctx.prog
+    # builder functions from which RESERVE is reachable through private
+    # helpers of the builder
+    reaches = set()
+    changed = True
+    while changed:
+        changed = False
+        for f in prog.funcs.values():
+            if f.cls != R.builder or f.qualname in reaches:
+                continue
+            for call in prog.calls_in(f):
+                for g in prog.resolve_call(call, f):
+                    if isinstance(g, Func) and (
+                            g.qualname == RESERVE or (
+                                g.qualname in reaches and not g.is_public)):
+                        reaches.add(f.qualname)
+                        changed = True
     c = []
-    for f in ctx.prog.funcs.values():
-        if f.cls != R.builder:
+    for f in prog.funcs.values():
+        if f.cls != R.builder or f.qualname not in reaches:
             continue
         loops = [n for n in ast.walk(f.node) if isinstance(n, ast.For) and
                  isinstance(n.iter, ast.Attribute) and
                  n.iter.attr == 'suboperations']
-        if not loops:
-            continue
-        if any(isinstance(g, Func) and g.qualname == RESERVE
-               for call in ctx.prog.calls_in(f)
-               for g in ctx.prog.resolve_call(call, f)):
+        recursive = any(isinstance(g, Func) and g.qualname == f.qualname
+                        for call in prog.calls_in(f)
+                        for g in prog.resolve_call(call, f)) or any(
+            isinstance(g, Func) and g.cls == R.builder and not g.is_public
+            and any(isinstance(h, Func) and h.qualname == f.qualname
+                    for c2 in prog.calls_in(g)
+                    for h in prog.resolve_call(c2, g))
+            for call in prog.calls_in(f)
+            for g in prog.resolve_call(call, f))
+        if loops and recursive:
             c.append(f)
     if len(c) != 1:
         raise AnalysisError('cannot identify the apply routine: %r' % (
@@ -130,7 +152,8 @@ def apply_rules(ctx, rc):
         key = 'apply: reservation receives the directories just made'
         if a is not None:
             org = ctx.H.origins(
-                a, A, x.cn, stop=lambda n: n == R.builder + '._make_dirs')
+                a, x.func, x.cn,
+                stop=lambda n: n == R.builder + '._make_dirs')
             if {o[1] for o in org if o[0] == 'call'} == {
                     R.builder + '._make_dirs'}:
                 rc.ok({'apply': key}, key=key)
